@@ -105,27 +105,37 @@ func (w *world) representations(sq *square, tag string) (reps []representation, 
 }
 
 func (w *world) servedFromStores() {
-	for _, width := range []int{1, 2, 4} {
-		sq := w.S[width]
-		reps, cleanup, err := w.representations(sq, fmt.Sprint(width))
+	run := func(sq *square, tag string, ids []idSpec, memory bool) {
+		reps, cleanup, err := w.representations(sq, tag)
+		defer cleanup()
 		if err != nil {
-			cleanup()
-			w.rep.Inconclusivef("served-from-store: cannot prepare the stores for width %d: %v", width, err)
-			continue
+			w.rep.Inconclusivef("served-from-store: cannot prepare the stores for %s: %v", tag, err)
+			return
 		}
-		ids := allIDs(width)
+		if memory {
+			reps = append([]representation{{"memory", accGetter{sq}, reps[0].height}}, reps...)
+		}
 		for _, rp := range reps {
-			for _, typ := range []string{"row", "sample", "rnd", "range"} {
-				for _, a := range ids[typ] {
-					pan, pv := vh.Recover(func() { w.oneServed(rp, sq, a) })
-					if pan {
-						w.rep.Violate("C10/served/panic", fmt.Sprintf("%s from %s store (width %d): %s", a, rp.name, width, pv),
-							map[string]any{"id": a, "width": width, "representation": rp.name})
-					}
+			for _, a := range ids {
+				pan, pv := vh.Recover(func() { w.oneServed(rp, sq, a) })
+				if pan {
+					w.rep.Violate("C10/served/panic", fmt.Sprintf("%s from %s store (width %d): %s", a, rp.name, sq.w, pv),
+						map[string]any{"id": a, "width": sq.w, "representation": rp.name})
 				}
 			}
 		}
-		cleanup()
+	}
+	for _, width := range []int{1, 2, 4} {
+		var ids []idSpec
+		for _, typ := range []string{"row", "sample", "rnd", "range"} {
+			ids = append(ids, allIDs(width)[typ]...)
+		}
+		run(w.S[width], fmt.Sprint(width), ids, false) // the in-memory accessor is swept by servedBlocks
+	}
+	// row-namespace-data identifiers of squares with several namespaces: present, absent inside the
+	// row's range (honest answer: no shares + absence proof), outside the range (the node refuses)
+	for _, width := range []int{2, 4} {
+		run(w.M[width], fmt.Sprintf("mixed%d", width), w.M[width].mixedRndIDs(), true)
 	}
 }
 
@@ -134,9 +144,36 @@ func (w *world) oneServed(rp representation, sq *square, a idSpec) {
 	ctx := context.Background()
 	replay := map[string]any{"id": a, "width": sq.w, "representation": rp.name}
 	b := &binding{sqS: sq, sqT: sq, height: rp.height, ids: map[string]idSpec{"a": a}}
+	class := ""
+	if sq.layout != nil && a.Typ == "rnd" {
+		class = sq.rndClass(a.Row, a.Ns)
+		replay["class"] = class
+	}
+	if class == "outside" {
+		// Expected: the namespace is not inside [min,max] of the row root, so share.RowsWithNamespace never
+		// selects this row (the getter does not ask) and a node that is asked anyway refuses: Populate fails
+		// with ErrNamespaceOutsideRange and Blockstore.Get returns an error.  Serving anything would be
+		// wrong: nothing can verify for such an identifier.
+		eb, err := a.newBlock(rp.height, sq)
+		if err != nil {
+			rep.Inconclusivef("served-from-store: cannot build %v: %v", a, err)
+			return
+		}
+		blk, err := (&bitswap.Blockstore{Getter: rp.getter}).Get(ctx, eb.CID())
+		rep.Count("served_rnd_outside_refused", 1)
+		if err == nil {
+			rep.Count("served_rnd_outside_refused", -1)
+			rep.Violate("C10/served/outside-range-namespace-served", fmt.Sprintf("%v (width %d, %s): the namespace is outside the row's range, yet Blockstore.Get serves %d bytes", a, sq.w, rp.name, len(blk.RawData())), replay)
+		}
+		return
+	}
 	// reference: the committed data as the in-memory square gives it
 	_, refContainer, err := w.served(a, rp.height, sq)
 	if err != nil {
+		if class != "" {
+			rep.Violate("C10/served/blockstore-get-fails", fmt.Sprintf("%v (width %d, namespace %s in the row): the in-memory accessor cannot serve the honest answer: %v", a, sq.w, class, err), replay)
+			return
+		}
 		rep.Inconclusivef("served-from-store: no reference for %v: %v", a, err)
 		return
 	}
@@ -155,8 +192,11 @@ func (w *world) oneServed(rp representation, sq *square, a idSpec) {
 	bs := &bitswap.Blockstore{Getter: rp.getter}
 	blk, err := bs.Get(ctx, want)
 	rep.Count("served_store_"+rp.name, 1)
+	if class != "" {
+		rep.Count("served_rnd_"+class, 1)
+	}
 	if err != nil {
-		rep.Violate("C10/served/blockstore-get-fails", fmt.Sprintf("%v (width %d): Blockstore.Get over the %s store fails for an identifier of the stored square: %v", a, sq.w, rp.name, err), replay)
+		rep.Violate("C10/served/blockstore-get-fails", fmt.Sprintf("%v (width %d%s): Blockstore.Get over the %s store fails for an identifier of the stored square: %v", a, sq.w, classNote(class), rp.name, err), replay)
 		return
 	}
 	got, serr, pan := sum(blk.Cid().Prefix(), blk.RawData())
@@ -176,6 +216,16 @@ func (w *world) oneServed(rp representation, sq *square, a idSpec) {
 		rep.Violate("C10/served-block-wrong-data", fmt.Sprintf("%v (width %d): block served from the %s store fills the request with data that is not the committed data (verify: %v)", a, sq.w, rp.name, verr), replay)
 		return
 	}
+	if class != "" {
+		// the honest answer for an absent namespace is "no shares + a verifying proof of absence"
+		c := fs.reals[0].(*bitswap.RowNamespaceDataBlock).Container
+		absent := class == "absent-inside"
+		if (len(c.Shares) == 0) != absent || c.Proof == nil || c.Proof.IsOfAbsence() != absent {
+			rep.Violate("C10/served-block-wrong-data", fmt.Sprintf("%v (width %d, %s, namespace %s): request filled with %d shares, absence proof=%v",
+				a, sq.w, rp.name, class, len(c.Shares), c.Proof != nil && c.Proof.IsOfAbsence()), replay)
+			return
+		}
+	}
 	nb, _ := blocks.NewBlockWithCid(blk.RawData(), got)
 	fs.ex.send(nb)
 	if _, err := r.waitFor("store", func(e event) bool { return e.kind == "stored" }); err != nil {
@@ -190,4 +240,11 @@ func (w *world) oneServed(rp representation, sq *square, a idSpec) {
 		return
 	}
 	rep.Count("served_store_ok", 1)
+}
+
+func classNote(class string) string {
+	if class == "" {
+		return ""
+	}
+	return ", namespace " + class + " in the row"
 }
